@@ -219,6 +219,17 @@ Exec(st, op) ==
                     IN J(s2, k + 1, Append(acc, <<id, old, IF w THEN v ELSE 0 - 1>>))
              j == J(st, 1, <<>>)
          IN Out(j.st, [op |-> "WOp", k |-> "joinmut", s |-> 1, items |-> j.items])
+    [] op.o = "restrict" ->    \* join over restrict_mut(): per member read, optionally fetch mutably (op.fm), optionally write (op.wr)
+         LET ids == SeqOfSet(st.mask)
+             RECURSIVE J(_, _, _)
+             J(s, k, acc) ==
+               IF k > Len(ids) THEN [st |-> s, items |-> acc]
+               ELSE LET id == ids[k] old == UGet(s, id) f == k \in op.fm w == f /\ k \in op.wr v == NewV(s)
+                        s1 == IF f THEN Access(s, id, w) ELSE s
+                        s2 == IF w THEN USet(BumpV(s1), id, <<old[1], v>>) ELSE s1
+                    IN J(s2, k + 1, Append(acc, <<id, old, f, IF w THEN v ELSE IF f THEN 0 - 1 ELSE 0 - 2>>))
+             j == J(st, 1, <<>>)
+         IN Out(j.st, [op |-> "WOp", k |-> "restrict", s |-> 1, mode |-> "mut_join", items |-> j.items])
     [] op.o = "count" ->
          Out(st, [op |-> "WOp", k |-> "count", s |-> 1, n |-> Cardinality(st.mask), b |-> st.mask = {}])
     [] op.o = "setemit" ->
